@@ -125,7 +125,11 @@ def gen_presc(rng, cat, nsurf=None, catalog_rate=0.3, meta_rate=0.0, curved_imag
                 if rng.random() < 0.15:
                     g['name'] = g['name'].lower() if rng.random() < 0.5 else g['name'].upper()
             else:
-                g = {'name': cat.unknown_name(rng), 'kind': 'model'}
+                # model glasses: Zemax writes all of them under one placeholder name (e.g. ___BLANK) with
+                # different nd / Vd, so the same unknown name recurs within a file
+                prev = [t['glass']['name'] for t in surfs if t.get('glass') and t['glass']['kind'] == 'model']
+                name = rng.choice(prev) if prev and rng.random() < 0.6 else cat.unknown_name(rng)
+                g = {'name': name, 'kind': 'model'}
             g['nd'] = rnd_value(rng, 1.43, 1.95)
             g['vd'] = rnd_value(rng, 20, 90)
             s['glass'] = g
